@@ -25,12 +25,15 @@ PROPERTY = 'C16'
 LEVEL = 'exploration'
 EXHAUSTIVE = True
 
-RULE = ('10 base workflows (direct: one component consuming a data file inside its arguments plus a :copy file; one: '
+RULE = ('12 base workflows (direct: one component consuming a data file inside its arguments plus a :copy file; one: '
         'consumer of a file of one producer; chain: producer -> producer -> consumer; two: consumer of two producers '
         'named A-B and B; dir / dircopy: consumer of the working directory of a producer inside / outside its '
         'arguments; k8s: direct with a container image; ext: direct with an absolute path outside the instance; bin / '
         'binone: direct / one with pathless executables that are scripts shipped in bin/ and found through an '
-        'environment PATH=$INSTANCE_DIR/bin:$PATH, validated with checkExecutables=True so that they are resolved) x '
+        'environment PATH=$INSTANCE_DIR/bin:$PATH, validated with checkExecutables=True so that they are resolved; '
+        'stdout / streams: consumer of `<producer>:output` of a plain / a repeating producer whose streams/<n>.stdout '
+        'hold the last 5 of 1,2,5,10,11,12,14,100,101,104,1001 repetitions - same most recent output under every '
+        'history, most recent output changed, all older outputs changed, no output yet) x '
         'every single-aspect variation of the tables in verif/gen/c16_worlds.py::variations (relevant: executable (4), '
         'every literal part of the arguments changed/extended/dropped, token appended/prepended, two references '
         'exchanged, content of every consumed file (first/last byte flipped, byte appended, emptied, 5000 bytes, last '
@@ -51,11 +54,24 @@ RULE = ('10 base workflows (direct: one component consuming a data file inside i
         'alphabet; VERIF_SEED rotates a 1/64 stratum of those pairs into the quick tier. Every world is a separate '
         'real instance. A case = one (parent, variant) pair, non-trivial when the two worlds differ; distinct = '
         'distinct (base, variation path); all other pairs of records (every component of every world, producers '
-        'included) are judged through the partition comparison (counted in all_pairs_judged). Worlds that the '
+        'included) are judged through the partition comparison (counted in all_pairs_judged). For every component of '
+        'every world the consumers of the hash are observed too: the runtime wrapper ComponentState.memoization_hash'
+        '[_fuzzy] and Controller.can_memoize() against an in-memory component database holding the components of a '
+        'past run of the same world (hash fields "" where there is no hash, the convention of the product) and an '
+        'unrelated never-finished component: no lookup / no reuse while an input is missing, a reused component must '
+        'have an equal work descriptor. Worlds that the '
         'product\'s loader / validator refuses (e.g. a :ref reference that is not used in the arguments) are counted '
         'and not judged.')
 
 ASSUMPTIONS = [
+    '`<producer>:output` (no file) refers to what the producer printed: out.stdout, and for a repeating producer the '
+    'archived output of its most recent repetition = streams/<index>.stdout with the highest NUMERIC index (docstring of '
+    'ComponentSpecification.path_to_stdout); such worlds are validated after the outputs were written, because on HEAD '
+    'validateExperiment() raises AttributeError for this kind of reference while no stream exists; left-over temp_<n>.stdout '
+    'files of an interrupted archive_stream are not in the alphabet',
+    '"no hash is produced" is also judged where the hash is consumed: Controller.can_memoize(ComponentState) must not query '
+    'the component database nor return a candidate for a component one of whose own inputs is missing (fuzzy: when the '
+    'missing file is not produced by a component); documents without a hash carry "" (Experiment.annotate_component_documents)',
     'the work descriptor is written from the statement: executable (after variable interpolation), the argument string '
     'split into literal runs and references, each reference identified by (content, method); the multiset of consumed '
     '(content, method); the image. File names, reference spelling, names and stages are not part of it',
@@ -79,9 +95,9 @@ ASSUMPTIONS = [
 ]
 
 IRRELEVANT_GROUPS = {'name', 'pname', 'stage', 'stagename', 'spelling', 'order', 'unused', 'resources', 'location', 'time',
-                     'neighbours', 'filename', 'indirection', 'checkexe'}
-RELEVANT_GROUPS = {'exe', 'args', 'content', 'bigcontent', 'method', 'usedvar', 'refs'}
-NO_SECOND_LEVEL = {'bigcontent'}     # long files are only varied alone (cost)
+                     'neighbours', 'filename', 'indirection', 'checkexe', 'history', 'oldstream'}
+RELEVANT_GROUPS = {'exe', 'args', 'content', 'bigcontent', 'method', 'usedvar', 'refs', 'latest'}
+NO_SECOND_LEVEL = {'bigcontent', 'latest', 'oldstream'}     # only varied alone (cost)
 
 import verif.core.runner as _runner
 _runner.Collector.MAX_FAIL = max(_runner.Collector.MAX_FAIL, 5000)
@@ -135,9 +151,25 @@ def _single_ids(bn, singles):
 
 def observe_world(world):
     """Realises one world, returns {comp: record} with the oracle's descriptors and the observed hashes."""
+    import contextlib
     from verif.gen.pkg import scratch_dir
     d = M.Descriptors(world)
-    with scratch_dir('c16-') as root:
+
+    @contextlib.contextmanager
+    def world_dir():
+        # inside the directory of the run, so that nothing is left behind when the pool is torn down after an error
+        if G.EXT_ROOT is None:
+            with scratch_dir('c16-') as r:
+                yield r
+            return
+        import shutil
+        import tempfile
+        r = tempfile.mkdtemp(prefix='w-', dir=G.EXT_ROOT)
+        try:
+            yield r
+        finally:
+            shutil.rmtree(r, ignore_errors=True)
+    with world_dir() as root:
         try:
             obs = G.realise(world, root)
         except G.Rejected as e:
@@ -147,7 +179,7 @@ def observe_world(world):
         n = c['name']
         rec = d.record(n)
         rec.update({'h': obs[n]['strong'], 'f': obs[n]['fuzzy'], 'info': obs[n]['info'], 'info_fuzzy': obs[n]['info_fuzzy'],
-                    'feat': M.features(world, n), 'exe': d._exe(c)})
+                    'feat': M.features(world, n), 'exe': d._exe(c), 'wrapper': obs[n]['wrapper'], 'lookup': obs[n]['lookup']})
         out[n] = rec
     for n, rec in out.items():
         rec['chain'] = {u: {'declared_exe': out[u]['exe'], 'strong_hash': out[u]['h'], 'fuzzy_hash': out[u]['f'],
@@ -198,8 +230,41 @@ def judge_record(r):
     return out
 
 
+def judge_runtime(recs, cn):
+    """What the consumer of the hashes does (Controller.can_memoize on the runtime wrapper of the component) against a
+    database that holds the components of a past run of the same world and one unrelated, never finished component.
+    -> [(kind, shape, why)], label"""
+    r = recs[cn]
+    out, labels = [], []
+    for kind, missing, key_eq, key_ne in (('strong', r['strong_missing'], 'strong', 'strong'),
+                                          ('fuzzy', r['fz_missing_direct'], 'fz_hi', 'fz_lo')):
+        lk = r['lookup'][kind]
+        m = lk['matched']
+        if missing:
+            if m is not None or lk['queries']:
+                out.append((kind, 'lookup-while-input-missing',
+                            'a referenced input is missing (no %s hash may exist) but the controller looked up the component database '
+                            'with %r and %s' % (kind, lk['queries'], 'would reuse the results of %s' % m if m else 'found nothing')))
+            else:
+                labels.append('%s: no lookup while an input is missing' % kind)
+            continue
+        if m is None:
+            labels.append('%s: no candidate' % kind)
+            continue
+        other = recs.get(m)
+        if other is None:
+            out.append((kind, 'reuse-of-unrelated-component', 'the controller would reuse the results of the unrelated, never '
+                        'finished component (queries %r)' % (lk['queries'],)))
+        elif r[key_ne] is not None and other[key_ne] is not None and r[key_ne] != other[key_ne]:
+            out.append((kind, 'reuse-of-different-work', 'the controller would reuse the results of %s whose work descriptor '
+                        'differs (queries %r)' % (m, lk['queries'])))
+        else:
+            labels.append('%s: reuses equivalent work' % kind)
+    return out, '; '.join(labels)
+
+
 def slim(r):
-    return {'strong_hash': r['h'], 'fuzzy_hash': r['f'], 'info': r['info'], 'info_fuzzy': r['info_fuzzy'], 'features': r['feat'],
+    return {'wrapper': r.get('wrapper'), 'lookup': r.get('lookup'), 'strong_hash': r['h'], 'fuzzy_hash': r['f'], 'info': r['info'], 'info_fuzzy': r['info_fuzzy'], 'features': r['feat'],
             'declared_exe': r['exe'], 'chain': r['chain'],
             'descriptor_keys': {k: r[k] for k in ('strong', 'fz_lo', 'fz_hi', 'strong_missing', 'fz_missing_direct')}}
 
@@ -243,6 +308,25 @@ def judge_all(col, table, results):
             if len(e['parents']) <= 1:
                 col.note('not judged, the loader rejects %s: %s' % (e['wid'], ' '.join(recs['_rejected'].split())[:160]))
     reported = set()
+    # ---- per record: the consumers of the hash (runtime wrapper + Controller.can_memoize)
+    positive = 0
+    for e in table:
+        recs = results[e['wid']]
+        if '_rejected' in recs:
+            continue
+        for cn in sorted(recs):
+            bad, label = judge_runtime(recs, cn)
+            col.count('runtime_lookups_judged', 2)
+            positive += label.count('reuses equivalent work')
+            for kind, shape, why in bad:
+                case = {'kind': 'runtime', 'a': side(e, cn), 'aspect': 'runtime'}
+                col.fail(case, '%s (%s): %s' % (e['wid'], cn, why), {'a': slim(recs[cn])}, sig='runtime:%s:%s' % (kind, shape))
+                col.outcome('FAIL runtime: %s %s' % (kind, shape))
+            if recs[cn]['own_missing'] and not bad:
+                col.outcome('runtime: ' + label)
+    if not positive:
+        raise HarnessError('the in-memory component database never produced a match: the runtime observation is vacuous')
+    col.count('runtime_lookups_that_reuse_equivalent_work', positive)
     # ---- per record: missing inputs
     for e in table:
         recs = results[e['wid']]
@@ -430,6 +514,13 @@ def _replay(ctx, case):
     ra = observe_world(ea['world'])
     if '_rejected' in ra:
         raise HarnessError('replay: world a rejected: %s' % ra['_rejected'])
+    if case['kind'] == 'runtime':
+        ctx.evaluated()
+        for kind, shape, why in judge_runtime(ra, case['a']['comp'])[0]:
+            ctx.fail(case, '%s (%s): %s' % (ea['wid'], case['a']['comp'], why), {'a': slim(ra[case['a']['comp']])},
+                     sig='runtime:%s:%s' % (kind, shape))
+        ctx.outcome('replayed')
+        return
     ra = ra[case['a']['comp']]
     ctx.evaluated()
     if case['kind'] == 'missing':
@@ -548,7 +639,8 @@ def _sel_abs_path(f):
 def _drop_dir_refs_outside_args(w):
     for c in w['comps']:
         used = set(p['r'] for p in c['args'] if isinstance(p, dict) and 'r' in p)
-        keep = [i for i, r in enumerate(c['refs']) if not (r['prod'] is not None and r['path'] is None and i not in used)]
+        keep = [i for i, r in enumerate(c['refs'])
+                if not (r['prod'] is not None and r['path'] is None and not r.get('stdout') and i not in used)]
         remap = {old: new for new, old in enumerate(keep)}
         c['refs'] = [c['refs'][i] for i in keep]
         c['args'] = [{'r': remap[p['r']]} if isinstance(p, dict) and 'r' in p else p for p in c['args']]
